@@ -42,6 +42,10 @@ def impedance(s, r, case, N):
     z = (10 ** r.uniform(-2, 3, N)) + 1j * r.standard_normal(N) * 10 ** r.uniform(-2, 3, N)
     if k == "randreal0":
         z.real[r.random(N) < 0.3] = 0.0
+    elif k == "randtail0":      # band-limited table (a short impedance file is padded with exact zeros)
+        z[int(r.uniform(0.02, 0.98) * (N // 2)):] = 0
+    elif k == "randsparse":
+        z[r.random(N) < 0.5] = 0
     return s.imp_array(z.astype(np.complex64), fmax)
 
 
@@ -170,7 +174,7 @@ def cases(draw):
 
     def lg(lo, hi):
         return float(10 ** draw(st.floats(np.log10(lo), np.log10(hi))))
-    zk = draw(st.sampled_from(["freespace", "plates", "wall", "collimator", "factory", "random", "random", "randreal0"]))
+    zk = draw(st.sampled_from(["freespace", "plates", "wall", "collimator", "factory", "random", "random", "randreal0", "randtail0", "randsparse"]))
     if zk in ("plates", "factory"):
         N = min(N, 200)
         n = min(n, N)
